@@ -421,6 +421,64 @@ type E3MixedTwoData struct { // VerTwoData: val unique shallow, duo unique deep,
 type ELevel1d struct{ ELevel2d }
 type ELevel2d struct{ Duo int64 }
 
+// --- three and more levels of anonymous embedding whose INNERMOST struct maps
+// several schema fields (index paths of length >= 4 with siblings) -----------
+
+type EIn2 struct { // VerTwoData: two fields of different Go types
+	Val int16
+	Duo int64
+}
+type EIn2L3 struct{ EIn2 }
+type EIn2L2 struct{ EIn2L3 }
+type E4TwoFields struct{ EIn2L2 } // Top{L1{L2{Inner{Val;Duo}}}}
+type EIn2L1 struct{ EIn2L2 }
+type E5TwoFields struct{ EIn2L1 } // one level more
+
+type EInVal struct{ Val int16 }
+type EInDuo struct{ Duo int64 }
+type EIn2e struct { // innermost level made of two embedded structs
+	EInVal
+	EInDuo
+}
+type EIn2eL2 struct{ EIn2e }
+type E4TwoEmbedded struct{ EIn2eL2 }
+
+type EZIn struct { // Zdate: three fields, two of the same Go type
+	Year  int16
+	Month uint8
+	Day   uint8
+}
+type EZL3 struct{ EZIn }
+type EZL2 struct{ EZL3 }
+type E4Zdate struct{ EZL2 }
+type EZL3p struct{ *EZIn }
+type EZL2p struct{ *EZL3p }
+type E4ZdatePtr struct{ *EZL2p } // the same through embedded pointers
+type EZInR struct {              // renamed + omitted in the innermost struct
+	Y    int16 `capnp:"year"`
+	Skip uint8 `capnp:"-"`
+	M    uint8 `capnp:"month"`
+	D    uint8 `capnp:"day"`
+}
+type EZL3r struct{ EZInR }
+type EZL2r struct{ EZL3r }
+type E4ZdateRenamed struct{ EZL2r }
+type EZSplit3 struct { // fields spread over levels 2, 3 and 4
+	EZSplit2
+	Day uint8
+}
+type EZSplit2 struct {
+	EZSplit1
+	Month uint8
+}
+type EZSplit1 struct{ EZYear }
+type EZYear struct{ Year int16 }
+type E4ZdateSplit struct{ EZSplit3 }
+
+type EPL3 struct{ GPlaneBase } // PlaneBase: six fields incl. text and list at depth 4
+type EPL2 struct{ EPL3 }
+type E4PlaneBase struct{ EPL2 }
+
 // ---------------------------------------------------------------------------
 
 type goMapping struct {
@@ -538,6 +596,14 @@ func init() {
 	}
 	add("E3OnlyDeepCollision", E3OnlyDeepCollision{}, "VerTwoData", air.VerTwoData_TypeID, sz(16, 0), 1, true)
 	add("E3MixedTwoData", E3MixedTwoData{}, "VerTwoData", air.VerTwoData_TypeID, sz(16, 0), 1, true)
+	add("E4TwoFields", E4TwoFields{}, "VerTwoData", air.VerTwoData_TypeID, sz(16, 0), 1, true)
+	add("E5TwoFields", E5TwoFields{}, "VerTwoData", air.VerTwoData_TypeID, sz(16, 0), 1, true)
+	add("E4TwoEmbedded", E4TwoEmbedded{}, "VerTwoData", air.VerTwoData_TypeID, sz(16, 0), 1, true)
+	add("E4Zdate", E4Zdate{}, "Zdate", air.Zdate_TypeID, sz(8, 0), 1, true)
+	add("E4ZdatePtr", E4ZdatePtr{}, "Zdate", air.Zdate_TypeID, sz(8, 0), 1, true)
+	add("E4ZdateRenamed", E4ZdateRenamed{}, "Zdate", air.Zdate_TypeID, sz(8, 0), 1, true)
+	add("E4ZdateSplit", E4ZdateSplit{}, "Zdate", air.Zdate_TypeID, sz(8, 0), 1, true)
+	add("E4PlaneBase", E4PlaneBase{}, "PlaneBase", air.PlaneBase_TypeID, sz(32, 2), 1, true)
 	add("GA320", GA320{}, "A320", air.A320_TypeID, sz(0, 1), 1, true)
 	add("GF16", GF16{}, "F16", air.F16_TypeID, sz(0, 1), 1, true)
 }
